@@ -94,10 +94,10 @@ var specs = map[string]*spec{
 		Rule: "one run = one seeded cluster simulation with an API fuzzer task per node (status/configuration rendering, submissions of every and of invalid operation types, empty payloads, zero/huge timeouts, membership requests with existing/unknown/own ids, Bootstrap again, Start/Restart on a running node, Stop+Restart, Stop+Start, Stop twice) in whatever state the node is in; the membership profile contributes the membership-future obligation. Non-trivial: >= 10 API calls were made. Distinct: distinct event-log hashes among those.",
 		Probes: []string{"api-calls", "api-in-state-0", "api-in-state-1", "api-in-state-2", "api-in-state-3", "api-in-state-4", "graceful-restart", "membership-change-applied-by-its-leader"}},
 	"C20": {ID: "C20", Engine: "race", Accept: []string{"C20"}, Level: "exploration"},
-	"C10": {ID: "C10", Profiles: []string{"snapshot"}, Engine: "cluster", Accept: []string{"C10"}, Level: "exploration",
+	"C10": {ID: "C10", Profiles: []string{"snapshot", "snapshot", "crashsweep"}, Engine: "cluster", Accept: []string{"C10"}, Level: "exploration",
 		Rule: "one run = one seeded cluster simulation with snapshots on, slow state machine, lagging followers. Non-trivial: >= 1 snapshot became visible. Distinct: distinct event-log hashes among those.",
 		Probes: []string{"snapshot-visible", "snapshot-installed", "snapshot-during-apply", "snapshot-larger-than-chunk", "restore-during-apply"}},
-	"C11": {ID: "C11", Profiles: []string{"snapshot"}, Engine: "cluster", Accept: []string{"C11"}, Level: "exploration",
+	"C11": {ID: "C11", Profiles: []string{"snapshot", "snapshot", "crashsweep"}, Engine: "cluster", Accept: []string{"C11"}, Level: "exploration",
 		Rule: "one run = one seeded cluster simulation with snapshots on plus duplicated / stale re-delivered InstallSnapshot requests. Non-trivial: >= 1 snapshot installed on a follower. Distinct: distinct event-log hashes among those.",
 		Probes: []string{"snapshot-installed", "log-discarded", "log-compacted", "partial-snapshot-discarded", "installsnapshot-second-chunk"}},
 	"C14": {ID: "C14", Profiles: []string{"crashsweep"}, Engine: "cluster", Accept: []string{"C14"}, Level: "exploration",
@@ -118,6 +118,8 @@ func init() {
 		s.Assume = append(s.Assume, commonAssume...)
 	}
 }
+
+var overrideProfile string
 
 // ---------------------------------------------------------------- worker output
 
@@ -266,7 +268,7 @@ func (a *aggregate) add(sp *spec, r *runResult) {
 	for _, h := range r.StateList {
 		a.states[h] = struct{}{}
 	}
-	for _, k := range []string{"Crashes", "Restarts", "Partitions", "Heals", "ClockJumps", "Stalls", "CrashAtOp", "CrashNow", "DiskErrors", "StopStarts", "Redeliveries", "LinkFlaps", "LostUnsyncedFiles", "RestartFailures", "MembershipCalls"} {
+	for _, k := range []string{"Crashes", "Restarts", "Partitions", "Heals", "ClockJumps", "Stalls", "CrashAtOp", "CrashAtOpKind", "CrashNow", "DiskErrors", "StopStarts", "Redeliveries", "LinkFlaps", "SlowLinks", "LostUnsyncedFiles", "RestartFailures", "MembershipCalls"} {
 		if v := num(r.Stats, k); v != 0 {
 			a.faults[k] += v
 		}
@@ -278,7 +280,7 @@ func (a *aggregate) add(sp *spec, r *runResult) {
 			a.faults["crash:"+k] += v
 		}
 	}
-	for _, k := range []string{"LossyDropped", "DroppedReq", "DroppedReply", "Duplicated", "Redelivered", "BlockedReq", "BlockedReply", "PeerDown", "HeavyTail", "Sent", "Delivered"} {
+	for _, k := range []string{"LossyDropped", "SlowLink", "DroppedReq", "DroppedReply", "Duplicated", "Redelivered", "BlockedReq", "BlockedReply", "PeerDown", "HeavyTail", "Sent", "Delivered"} {
 		if v := num(r.Net, k); v != 0 {
 			a.faults["net:"+k] += v
 		}
@@ -820,6 +822,10 @@ func main() {
 		case "--workers":
 			i++
 			workers, _ = strconv.Atoi(os.Args[i])
+		case "--profile":
+			// Diagnosis only: judge this property on runs of another profile (no evidence written).
+			i++
+			overrideProfile = os.Args[i]
 		case "quick", "thorough":
 			tier = os.Args[i]
 		}
@@ -839,6 +845,9 @@ func main() {
 	sp := specs[os.Args[1]]
 	if sp == nil {
 		infra("unknown property %q", os.Args[1])
+	}
+	if overrideProfile != "" {
+		sp.Profiles = []string{overrideProfile}
 	}
 	if sp.Engine == "race" {
 		os.Exit(raceCheck(sp, tier, envSeed, budget))
@@ -896,7 +905,9 @@ func main() {
 		exit = 1
 	}
 	wall := time.Since(t0).Seconds()
-	writeEvidence(sp, tier, envSeed, agg, wall, nViol, knownHit, nil)
+	if overrideProfile == "" {
+		writeEvidence(sp, tier, envSeed, agg, wall, nViol, knownHit, nil)
+	}
 	fmt.Printf("%s: %d runs (%d distinct non-trivial), %.0f simulated s, %d distinct cluster states, %.0fs wall, exit %d\n",
 		sp.ID, agg.runs, len(agg.nontrivial), float64(agg.virtualMs)/1000, len(agg.states), wall, exit)
 	b.cleanup()
